@@ -111,6 +111,7 @@ def enforce_int(n: int) -> bool:
 def enforce_str(s: str) -> bool:
     """
     pre: len(s) <= P["L"]
+    pre: not P.get("ascii") or all(ord(c) < 128 for c in s)
     post: _
     """
     cls = G.by_name(P["cls"])
@@ -347,8 +348,11 @@ def queries(tier, seed):
         for lo, hi, label in ranges:
             tag = "" if lo is None and hi is None else f"/{'lo' if lo is not None else ''}{'hi' if hi is not None else ''}{abs(lo or hi) % 97}"
             qs.append(Q(f"int/{name}{tag}", "enforce_int", {"cls": name, "lo": lo, "hi": hi}, cto=t, pto=t, what=f"{name} ({ty}) from ints {label}"))
-        sl = 4 if ty in ("Integer32", "Enumerated", "Time", "Unsigned32") else (1 if name in ("MsisdnAVP", "StnSrAVP") else 2 if ty == "Address" else 3)
-        qs.append(Q(f"str/{name}", "enforce_str", {"cls": name, "L": sl}, cto=t, pto=t, what=f"{name} ({ty}) from every str of <= {sl} chars"))
+        sl = 4 if ty in ("Integer32", "Enumerated", "Time", "Unsigned32") else ((1 if tier == "quick" else 2) if name in ("MsisdnAVP", "StnSrAVP") else 2 if ty == "Address" else 3)
+        # int(str) accepts every Unicode decimal digit (~650 code points, one path each): the TBCD classes get ASCII strings
+        asc = name in ("MsisdnAVP", "StnSrAVP")
+        qs.append(Q(f"str/{name}", "enforce_str", {"cls": name, "L": sl, "ascii": asc}, cto=t, pto=t,
+                    what=f"{name} ({ty}) from every {'ASCII ' if asc else ''}str of <= {sl} chars"))
     groups = [c for c in G.classes() if G.type_of(c) == "Grouped" and getattr(c, "mandatory", None)]
     if tier == "quick":
         groups = [c for c in groups if len(c.mandatory) <= 3][:8]
@@ -366,6 +370,6 @@ def queries(tier, seed):
 ENGINE = "CrossHair + z3 on the real constructors; finite SMT instance (z3 + cvc5) for function-hood; native table comparisons for (b)/(d)"
 BOUNDS = ["value kinds: every int; bytes of length 0..9 (Address: 0..19) with symbolic content; str of <= 3/4 chars; non-solver kinds by table",
           "quick: one class per (type, vendor-ness) + custom-logic classes; thorough: all classes", "Grouped: every subset of <= 5 mandatory members"]
-OUTSIDE = ["float/regex domains (DiameterURI grammar by concrete table)", "Address families other than IPv4/IPv6 (accepted as opaque data)",
+OUTSIDE = ["non-ASCII str values for the TBCD classes (int(str) accepts ~650 Unicode digits, one path each)", "float/regex domains (DiameterURI grammar by concrete table)", "Address families other than IPv4/IPv6 (accepted as opaque data)",
            "negative ints for Unsigned64 (the struct format is signed; two's complement accepted)"]
 ASSUMPTIONS = ["well-formedness predicate well_formed() transcribes the statement", "frozen reference dictionary ref/avp_dictionary.json"]
